@@ -40,7 +40,7 @@ FieldVals(f) ==
     [] f = "wrap" -> {0, 1}
     [] f = "winc" -> {"w1", "w2"}
     [] f = "wbody" -> {"wb1", "wb2"}
-    [] f = "part" -> {<<>>, P1, <<<<"", "p2">>>>, <<<<"y", "p1">>>>}
+    [] f = "part" -> {<<>>, P1, <<<<"", "p2">>>>, <<<<"y", "p1">>>>, <<<<"y", "p2">>>>}
 Get(t, f) ==
   CASE f = "ns" -> t.ns [] f = "name" -> t.name [] f = "kind" -> t.kind [] f = "nested" -> t.nested
     [] f = "body" -> t.body [] f = "ver" -> t.ver [] f = "defopt" -> t.defopt [] f = "deco" -> t.deco
@@ -67,7 +67,7 @@ Bases ==
        \cup {T("def", 0, 0, io[1], io[2], 0, P1) : io \in IncOvr}
   ELSE {T(k, n, v, i, o, w, p) : k \in {"def", "async"}, n \in {0, 1}, v \in {0, 1},
                                   i \in {<<>>, <<"i1", "i2">>, <<"dA">>}, o \in {0, 1}, w \in {0, 1},
-                                  p \in {<<>>, P1}}
+                                  p \in {<<>>, P1, <<<<"y", "p1">>>>}}
 
 \* syntactic classes of the deviations
 AsyncClass(t) == t.kind = "async" /\ t.ver = 0
